@@ -431,7 +431,7 @@ func appendSnapshotFunctions(b []byte, s *slip.Scope) []byte {
 			})
 			b = append(b, '\n')
 			b = pp.Append(b, s, slip.List{
-				slip.Symbol("use-package"),
+				slip.Symbol("in-package"),
 				slip.String(p.Name),
 			})
 			for _, fi := range fia {
@@ -445,7 +445,7 @@ func appendSnapshotFunctions(b []byte, s *slip.Scope) []byte {
 	}
 	b = append(b, '\n')
 	b = pp.Append(b, s, slip.List{
-		slip.Symbol("use-package"),
+		slip.Symbol("in-package"),
 		slip.String(slip.CurrentPackage.Name),
 	})
 	return b
